@@ -7,7 +7,9 @@ package main
 // (theorems `…_sound` in `Props/C09.lean` say what a passed check means for every execution).
 //
 // Term (prefix notation):  C <name> <qual>   call of interest (names are hex strings)
-//                          R                  return
+//                          R | N              return (N: the last result is the literal nil, or there is none)
+//                          J <s> <t> <e>      `if err := f(…); err != nil { t } else { e }` with the same-package
+//                                             callee f inlined as s: the way s returns selects the branch
 //                          T <name>           return <call of interest>(…)   (tail call)
 //                          G <label>          goto
 //                          K                  nothing of interest
@@ -314,6 +316,14 @@ func (x *skelX) stmt(s ast.Stmt) *skNode {
 	case *ast.BlockStmt:
 		return x.block(v.List)
 	case *ast.IfStmt:
+		if body, ok := x.tryIdiom(v); ok {
+			t := x.block(v.Body.List)
+			e := skK
+			if v.Else != nil {
+				e = x.stmt(v.Else)
+			}
+			return &skNode{kind: "J", kids: []*skNode{body, t, e}}
+		}
 		head := skSeq(x.stmt(v.Init), x.expr(v.Cond))
 		t := x.block(v.Body.List)
 		e := skK
@@ -344,7 +354,13 @@ func (x *skelX) stmt(s ast.Stmt) *skNode {
 		for _, e := range v.Results {
 			parts = append(parts, x.expr(e))
 		}
-		return skSeq(skSeqs(parts), &skNode{kind: "R"})
+		kind := "R"
+		if n := len(v.Results); n == 0 {
+			kind = "N"
+		} else if id, ok := v.Results[n-1].(*ast.Ident); ok && id.Name == "nil" {
+			kind = "N"
+		}
+		return skSeq(skSeqs(parts), &skNode{kind: kind})
 	case *ast.BranchStmt:
 		if v.Tok == token.GOTO && v.Label != nil {
 			return &skNode{kind: "G", name: v.Label.Name}
@@ -404,6 +420,49 @@ func (x *skelX) stmt(s ast.Stmt) *skNode {
 	}
 	x.fail(s, "statement form %T", s)
 	return nil
+}
+
+// tryIdiom recognises `if …, err := f(…); err != nil {` where f is a same-package callee that gets inlined:
+// which branch runs is decided by how f returns, not by a fresh atom.
+func (x *skelX) tryIdiom(v *ast.IfStmt) (*skNode, bool) {
+	as, ok := v.Init.(*ast.AssignStmt)
+	if !ok || len(as.Rhs) != 1 || len(as.Lhs) == 0 {
+		return nil, false
+	}
+	call, ok := as.Rhs[0].(*ast.CallExpr)
+	if !ok {
+		return nil, false
+	}
+	key, d := x.local(call)
+	name, _ := calleeOf(call)
+	if d == nil || skelInterest[name] || !x.interesting(key, d) {
+		return nil, false
+	}
+	errVar, ok := as.Lhs[len(as.Lhs)-1].(*ast.Ident)
+	if !ok {
+		return nil, false
+	}
+	cond, ok := v.Cond.(*ast.BinaryExpr)
+	if !ok || cond.Op != token.NEQ {
+		return nil, false
+	}
+	l, lok := cond.X.(*ast.Ident)
+	r, rok := cond.Y.(*ast.Ident)
+	if !lok || !rok || l.Name != errVar.Name || r.Name != "nil" {
+		return nil, false
+	}
+	for _, a := range call.Args {
+		if e := x.expr(a); e.kind != "K" {
+			return nil, false
+		}
+	}
+	if x.stack[key] {
+		x.fail(call, "recursive call of %s", key)
+	}
+	x.stack[key] = true
+	body := x.block(d.Body.List)
+	delete(x.stack, key)
+	return body, true
 }
 
 type skelOut struct {
